@@ -180,6 +180,17 @@ func runCase(t *testing.T, c *Case) (res *RunResult, w *World) {
 		if w.Stuck {
 			w.Probes["stuck"]++
 		}
+		if w.Sched.Pushes > 0 {
+			w.Probes["sched_pushes"] += w.Sched.Pushes
+			w.Probes["sched_pops"] += w.Sched.Pops
+			w.Probes["sched_empty_pops"] += w.Sched.EmptyPops
+			w.Probes["sched_data_splits"] += w.Sched.Splits
+			w.Probes["sched_stream_closes"] += w.Sched.Closes
+			w.Probes["sched_frames_dropped_by_close"] += w.Sched.DroppedByClose
+			w.Probes["sched_adjusts"] += w.Sched.Adjusts
+			w.Probes["sched_tree_checks"] += w.Sched.TreeChecks
+			w.Probes["sched_kind_"+w.Plan.SchedKind]++
+		}
 		w.Probes["backend_requests"] += len(w.BackReqs)
 		res.Violations = w.Violations
 		if c.Nontrivial != nil {
